@@ -2,6 +2,10 @@
 //! Usage: acb_verif_harness <family> --seed N --count N
 //! Writes protocol lines (see lean/Driver/Proto.lean) to stdout.
 mod app;
+mod appgen;
+mod costs;
+mod determinism;
+mod gains;
 mod common;
 mod etrade;
 mod fmv;
@@ -60,6 +64,10 @@ fn replay_stdin(w: &mut dyn Write, f: fn(&[String], &mut String) -> bool) {
 }
 
 fn main() {
+    // multi-call: re-executed as the real `acb` front end (family determinism)
+    if std::env::var("ACB_VERIF_MULTICALL").as_deref() == Ok("acb") {
+        std::process::exit(if acb::cmd::command_main().is_ok() { 0 } else { 1 });
+    }
     let args: Vec<String> = std::env::args().collect();
     if args.len() < 2 {
         eprintln!("usage: acb_verif_harness <family> --seed N --count N");
@@ -314,6 +322,52 @@ fn main() {
         "layout-replay" => replay_stdin(&mut w, layout::replay),
         "summary-replay" => replay_stdin(&mut w, summary::replay),
         "csvrt-replay" => replay_stdin(&mut w, csvrt::replay),
+        "costs" => {
+            let mut r = rng::Rng::new(seed);
+            for i in 0..count {
+                let mut cr = r.fork();
+                let c = costs::gen_case(&mut cr);
+                let mut s = String::new();
+                costs::run_case(&format!("K{}-{}", seed, i), &c, &mut s);
+                w.write_all(s.as_bytes()).unwrap();
+            }
+        }
+        "determinism" => {
+            let runs = arg_val(&args, "--runs", 10) as usize;
+            let mut r = rng::Rng::new(seed);
+            for i in 0..count {
+                let mut cr = r.fork();
+                let c = determinism::gen_case(&mut cr);
+                let mut s = String::new();
+                determinism::run_case(&format!("D{}-{}", seed, i), &c, runs, &mut s);
+                w.write_all(s.as_bytes()).unwrap();
+            }
+            determinism::cleanup();
+        }
+        "determinism-replay" => {
+            let runs = arg_val(&args, "--runs", 30) as usize;
+            let s = common::replay_stdin(determinism::parse_case, |id, c, out| determinism::run_case(id, c, runs, out));
+            determinism::cleanup();
+            w.write_all(s.as_bytes()).unwrap();
+        }
+        "gains" => {
+            let mut r = rng::Rng::new(seed);
+            for i in 0..count {
+                let mut cr = r.fork();
+                let c = gains::gen_case(&mut cr);
+                let mut s = String::new();
+                gains::run_case(&format!("G{}-{}", seed, i), &c, &mut s);
+                w.write_all(s.as_bytes()).unwrap();
+            }
+        }
+        "gains-replay" => {
+            let s = common::replay_stdin(gains::parse_case, gains::run_case);
+            w.write_all(s.as_bytes()).unwrap();
+        }
+        "costs-replay" => {
+            let s = common::replay_stdin(costs::parse_case, costs::run_case);
+            w.write_all(s.as_bytes()).unwrap();
+        }
         f if f.starts_with("fx") => fxmain::run(&args, seed, count, &mut w),
         f => {
             eprintln!("unknown family {}", f);
